@@ -123,6 +123,8 @@ type Contracts struct {
 	lemmas []*Lemma
 	classified []*Classified
 	sinks      []*SinkSpec
+	frames     []*FrameSpec
+	orders     []*OrderSpec
 	files  []string
 }
 
@@ -213,6 +215,20 @@ func (cs *Contracts) loadFile(path string, pkgName string, commentPrefix bool) e
 				return perr(err)
 			}
 			cs.sinks = append(cs.sinks, sp)
+			cur = nil
+		case "frame":
+			sp, err := parseFrameSpec(rest, props, where)
+			if err != nil {
+				return perr(err)
+			}
+			cs.frames = append(cs.frames, sp)
+			cur = nil
+		case "ordered":
+			sp, err := parseOrderSpec(rest, props, where)
+			if err != nil {
+				return perr(err)
+			}
+			cs.orders = append(cs.orders, sp)
 			cur = nil
 		case "classified":
 			// classified[Cnn] <pkg.Type>: f1 f2 ... -- every field of the struct, each one accounted for
